@@ -1258,3 +1258,45 @@ def rule_coord_scan_skips_sds(ctx):
                 ctx.holds("CRDSCAN", key, f.where(line), "the scan tells data sets and coordinate variables apart by var_type and never fails on a same-named data set", nontrivial=True)
     ctx.floor("CRDSCAN", 3, n, "(scans of the variable list that look at var_type)")
     return n
+
+
+def rule_generated_name_whole(ctx):
+    """GENNAME (C10): the SD layer names an unnamed dimension "fakeDim<N>" and renumbers those names when the file is written.
+    Whether a name is one of its own is a statement about the *whole* name: the prefix test `strncmp(name, "fakeDim", 7) == 0`
+    stands together with a test of what follows the prefix (digits only).  On the prefix alone a user's "fakeDimension" is
+    taken for a generated name and comes back from the file as "fakeDim1"."""
+    from .codec import ast_walk
+    from .facts import calls_in
+    prog = ctx.prog
+    n = 0
+    for f in prog.lib_funcs():
+        ast = f.raw.get("ast")
+        if not ast or not f.rel.startswith("mfhdf/src/"):
+            continue
+        found = []
+
+        def vis(nd, st):
+            if nd[0] == "if" and nd[1] is not None:
+                for c in calls_in(nd[1], True):
+                    if c[1] == "strncmp" and len(c[3]) == 3 and any(kind(strip(a)) == "str" and strip(a)[1] == "fakeDim" for a in c[3][:2]):
+                        found.append((nd, c))
+            return True
+
+        ast_walk(ast, vis)
+        for k, (nd, c) in enumerate(found, 1):
+            n += 1
+            key = "GENNAME:%s#%d" % (f.name, k)
+            line = nd[-3] if isinstance(nd[-3], int) else f.line
+            plen = int_val(c[3][2]) if is_int(c[3][2]) else 7
+            rest = False
+            for x in walk(nd[1], True):
+                if x[0] == "bin" and x[1] == "+" and is_int(x[3]) and int_val(x[3]) == plen:
+                    rest = True
+                if x[0] == "idx" and is_int(x[2]) and int_val(x[2]) >= plen:
+                    rest = True
+            if rest:
+                ctx.holds("GENNAME", key, f.where(line), "the \\"fakeDim\\" prefix test is joined by a test of the characters after the prefix", nontrivial=True)
+            else:
+                ctx.violated("GENNAME", key, f.where(line), "a name is taken for a generated one on its \\"fakeDim\\" prefix alone: a user's name with that prefix is replaced by fakeDim<N> when the file is written")
+    ctx.floor("GENNAME", 1, n, "(decisions that a dimension name is a generated one)")
+    return n
